@@ -358,13 +358,4 @@ def nativeLogical (eqOn : Bool) (e : Expr) : Bool := isBoolOp e || isNot e || is
 /-- a native overloadable EXPRESSION construct other than a call -/
 def nativeExprKind (eqOn : Bool) (e : Expr) : Bool := nativeLogical eqOn e || isIfExp e
 
-/-- a conditional expression with a conditional expression somewhere inside it -/
-def nestedIfExpHere : Expr → Bool
-  | .ifexp _ t b e => anyE isIfExp t || anyE isIfExp b || anyE isIfExp e
-  | _ => false
-
-/-- Hypothesis of `C04_ifexp_routed_partial`; its negation is the class `ifexp_nested_in_ifexp_branch`. -/
-def noNestedIfExpE (e : Expr) : Bool := !anyE nestedIfExpHere e
-def noNestedIfExpB (b : List Stmt) : Bool := !anyB nestedIfExpHere b
-
 end Malt.Conv.NoNative
